@@ -461,6 +461,23 @@ def run(ctx):
         r3.check(info["prefix"] == "${" and info["suffix"] == "}", f"{nm}:delimiters", "pattern is delimited by '${' and '}'", "pyxform/utils.py", why_fail=f"{info['prefix']!r}…{info['suffix']!r}")
     r3.check(("last-saved#" in br.pattern) == ("last-saved#" in lex["PYXFORM_REF"]), "last-saved marker spelling", "substituter and lexer agree on the last-saved# marker", "pyxform/utils.py")
     r3.check(pi["groups"] >= 1, "PYXFORM_REFERENCE_REGEX:groups", "consumers reading groups()[0] have a group", "pyxform/utils.py")
+    # every name the name validator accepts can be referenced: each reference pattern matches `${name}` whole, with the
+    # name as its name group, for names using every kind of XML name character (accents, combining marks, middle dot,
+    # undertie, astral letters, '.', '-', '_', digits) - decided on the folded patterns themselves
+    import re as _re3
+    valid_names = ["q1", "_x", "a.b", "a-b", "caf\u00e9", "cafe\u0301", "a\u00b7b", "a\u203fb", "x\u2040", "\u0646\u0627\u0645", "n\u0303", "\U00010400a", "A_b.c-9", "\u00e9", "a\u0660"]
+    for nm, pat, name_group in (("BRACKETED_TAG_REGEX", br.pattern, 2), ("PYXFORM_REFERENCE_REGEX", pr.pattern, 1), ("LEXER_RULES[PYXFORM_REF]", lex["PYXFORM_REF"], None)):
+        rx_ = _re3.compile(pat)
+        missed = []
+        for n_ in valid_names:
+            for prefix_ in ("", "last-saved#") if nm != "PYXFORM_REFERENCE_REGEX" else ("",):
+                text_ = "${" + prefix_ + n_ + "}"
+                m_ = rx_.search("x " + text_ + " y")
+                okm = m_ is not None and m_.group(0) == text_ and (name_group is None or (m_.group(name_group) or "").endswith(n_))
+                if not okm:
+                    missed.append(text_)
+        r3.check(not missed, f"{nm}:names", f"matches a reference to every kind of valid element name ({len(valid_names)} names)", "pyxform/utils.py",
+                 why_fail=f"not matched (left in the output as literal text, neither resolved nor reported): {missed[:4]}")
     # every `.groups()[i]` / group(i) on a match of a module-level regex constant
     for fi in repo.all_functions():
         if fi.fq not in reach or fi is vr:
@@ -548,6 +565,37 @@ def run(ctx):
     # the instance-predicate detector also anchors ${..} typed inside instance(...)[...] anywhere
     r4.check(any(isinstance(c, ast.Call) and call_name(c) == "_in_secondary_instance_predicate" for c in walk_own(vr.node)), "_var_repl_function:predicate detector",
              "references typed inside a secondary-instance predicate are detected and anchored too", vr.loc())
+    # the evaluation context of a reference is the element that owns the cell: every substitution call in an element's
+    # own method passes `self` as context (relative paths are computed from the context's node), except where the text
+    # belongs to another node (table below, each confirmed by reading)
+    ACCEPTED_CONTEXTS = {
+        ("Question.nest_set_nodes", "survey"): "the ref of a nested action names the TARGET question absolutely: resolved from the root",
+        ("MultipleChoiceQuestion.build_xml", "option"): "in-line item label of a search() select: the text is the option's own label",
+        ("Survey.itext", "None"): "itext media value without references (context unused)",
+        ("Survey.itext", "media_value['output_context']"): "itext text with references: the context recorded with the text by get_translations",
+    }
+    n_ctx = 0
+    for fi in repo.all_functions():
+        if fi.fq not in reach:
+            continue
+        for c in walk_own(fi.node):
+            if not (isinstance(c, ast.Call) and call_name(c) in ("insert_xpaths", "insert_output_values")):
+                continue
+            owner = fi
+            while owner.cls is None and owner.parent is not None:
+                owner = owner.parent
+            if owner.cls is None:
+                continue
+            cx = kw(c, "context")
+            if cx is None and len(c.args) > 1:
+                cx = c.args[1]
+            cxt = norm(cx) if cx is not None else "None"
+            n_ctx += 1
+            acc = ACCEPTED_CONTEXTS.get((fi.qualname, cxt))
+            r4.check(cxt == "self" or acc is not None, f"{fi.qualname}:{call_name(c)}({norm(c.args[0])[:30] if c.args else ''}, context={cxt})",
+                     f"accepted: {acc}" if acc else "references in an element's cell are resolved from that element", fi.loc(c),
+                     why_fail=f"context `{cxt}`: a relative path computed from another node reaches a different node (or is absolute where it must be relative)")
+    r4.check(n_ctx >= 15, "substitution contexts census", f"{n_ctx} substitution calls in element methods examined", "pyxform/")
     rules.append(r4)
     rules.append(_relation_rule(ctx))
     rules.append(reference_resolution_rule(ctx, "C03", "C03.R6"))
